@@ -313,12 +313,15 @@ def run(pid, tier, seed):
         # the module itself is gone: everything fails, "No traces found", success
         gone = [(fx.pkg + ".gone_mod", "f", {"a": INT}, INT, None), (fx.pkg + ".gone_mod", "g", {}, None, None)]
         for verbose in (False, True):
-            chk.evaluations += 1
-            rc, out, err, exc, _ = fx.run("stub", gone, verbose, target=fx.pkg + ".gone_mod")
-            pe = parse_stderr(err)
-            case = {"cmd": "stub", "verbose": verbose, "rows": ["module removed x2"]}
-            if exc is not None or rc != 0 or out.strip() or not pe["no_traces"]:
-                chk.fail("module-removed", dict(case, rc=rc, error=repr(exc), stdout=out, stderr=err))
+            for cmd in ("stub", "apply"):
+                chk.evaluations += 1
+                rc, out, err, exc, _ = fx.run(cmd, gone, verbose, target=fx.pkg + ".gone_mod")
+                pe = parse_stderr(err)
+                case = {"cmd": cmd, "verbose": verbose, "rows": ["module removed x2"]}
+                if exc is not None or rc != 0 or out.strip() or not pe["no_traces"] or pe["other"] or \
+                        (pe["warnings"] if verbose else (pe["summary"] or 0)) != 2:
+                    chk.fail("module-removed", dict(case, rc=rc, error=repr(exc), stdout=out, stderr=err))
+                chk.nontriv("module-removed|%s|%s" % (cmd, verbose))
         drv.close()
     finally:
         fx.close()
